@@ -114,6 +114,11 @@ class PhaseField(_Simu):
 
         self.__resumeLoading = ""
 
+        # convergence informations of the last solve (nothing solved yet)
+        self.__Niter = 0
+        self.__convIter = 0.0
+        self.__timeIter = 0.0
+
         self.__displacement_solver = self.solver
 
         self._Solver_Set_PETSc4Py_Options(
